@@ -698,6 +698,16 @@ def h_to_copy(func, args, kwargs):
 @reg(aten.copy_.default)
 def h_copy_(func, args, kwargs):
     dst, src = args[0], args[1]
+    ent = SH.st.get(src.untyped_storage().data_ptr()) if src.numel() else None
+    if ent is not None and ent[2] != src.element_size():
+        # raw byte copy of a whole shadowed storage (copy.deepcopy / storage.clone()): carry the shadow array along
+        if src.dtype != torch.uint8 or dst.dtype != torch.uint8 or src.storage_offset() != 0 or dst.storage_offset() != 0 \
+                or src.numel() != src.untyped_storage().nbytes() or dst.numel() != dst.untyped_storage().nbytes() \
+                or dst.numel() != src.numel():
+            raise Unsupported("partial raw-byte copy of a shadowed storage")
+        out = func(*args, **kwargs)
+        SH.st[dst.untyped_storage().data_ptr()] = (dst.untyped_storage(), ent[1].copy(), ent[2])
+        return out
     S = SH.get(src)
     if dst.is_floating_point():
         S = as_sym_arr(S)
